@@ -46,14 +46,14 @@ type gt struct {
 	args []*gt
 }
 
-func gV(n int) *gt                { return &gt{k: 'V', n: int64(n)} }
-func gA(s string) *gt             { return &gt{k: 'A', s: s} }
-func gI(n int64) *gt              { return &gt{k: 'I', n: n} }
-func gF(f float64) *gt            { return &gt{k: 'F', bits: math.Float64bits(f)} }
-func gFb(b uint64) *gt            { return &gt{k: 'F', bits: b} }
-func gS(n int) *gt                { return &gt{k: 'S', n: int64(n)} }
-func gC(f string, as ...*gt) *gt  { return &gt{k: 'C', s: f, args: as} }
-func gCons(h, t *gt) *gt          { return gC(".", h, t) }
+func gV(n int) *gt               { return &gt{k: 'V', n: int64(n)} }
+func gA(s string) *gt            { return &gt{k: 'A', s: s} }
+func gI(n int64) *gt             { return &gt{k: 'I', n: n} }
+func gF(f float64) *gt           { return &gt{k: 'F', bits: math.Float64bits(f)} }
+func gFb(b uint64) *gt           { return &gt{k: 'F', bits: b} }
+func gS(n int) *gt               { return &gt{k: 'S', n: int64(n)} }
+func gC(f string, as ...*gt) *gt { return &gt{k: 'C', s: f, args: as} }
+func gCons(h, t *gt) *gt         { return gC(".", h, t) }
 func gList(es []*gt, tail *gt) *gt {
 	t := tail
 	if t == nil {
@@ -985,8 +985,56 @@ func genAliases(r *rand.Rand, nv int) (string, map[int64]int64) {
 
 var c08Ops = []string{"@<", "@=<", "@>", "@>=", "==", "\\=="}
 
-func genC08Compare(r *rand.Rand, n int, tier string) []string {
+// c08Base: a fixed set of (recipe, abstract term) covering every type with near values and the
+// list [a,b] / its code list in every representation.  ALL ordered pairs over it are always run
+// (every pairing of two Compare methods and of two encodings is hit, not just sampled); the
+// thorough tier adds all triples over a sub-set.
+func c08Base() [][2]string {
+	ab := "C2:. Aa C2:. Ab A%5b%5d"
+	abCodes := "C2:. I97 C2:. I98 A%5b%5d"
+	plain := []string{"V0", "V1", "Fbff0000000000000", "F8000000000000000", "F0000000000000000", "F3ff0000000000000",
+		"I0", "I1", "A", "Aa", "Aab", "A%c3%a9", "S0", "S1", "C1:f Aa", "C1:f Ab", "C1:g Aa", "C2:f Aa Aa",
+		ab, "C2:. Aa C2:. Ab C2:. Ac A%5b%5d", "C2:. Aa V0", abCodes}
+	var out [][2]string
+	for _, t := range plain {
+		out = append(out, [2]string{t, t})
+	}
+	for _, rec := range []string{"Qab", "L2 Aa Ab", "Bchars:ab", "P1 Aa L1 Ab", "Bapp1:2 Aa Ab A%5b%5d", "Dchars:ab", "W U2:. Aa Qb"} {
+		out = append(out, [2]string{rec, ab})
+	}
+	for _, rec := range []string{"Kab", "Bcodes:ab", "Dcodes:ab"} {
+		out = append(out, [2]string{rec, abCodes})
+	}
+	out = append(out, [2]string{"P1 Aa V0", "C2:. Aa V0"})
+	return out
+}
+
+func genC08Exhaustive(tier string) []string {
 	var out []string
+	b := c08Base()
+	for _, x := range b {
+		for _, y := range b {
+			out = append(out, fmt.Sprintf("tri | nv=2 al=- | %s | %s | %s | %s | %s | %s", x[0], y[0], x[0], x[1], y[1], x[1]))
+		}
+	}
+	if tier == "thorough" {
+		sub := b[:18]
+		for _, x := range sub {
+			for _, y := range sub {
+				for _, z := range sub {
+					if x[0] == z[0] {
+						continue
+					}
+					out = append(out, fmt.Sprintf("tri | nv=2 al=- | %s | %s | %s | %s | %s | %s", x[0], y[0], z[0], x[1], y[1], z[1]))
+				}
+			}
+		}
+	}
+	return out
+}
+
+func genC08Compare(r *rand.Rand, n int, tier string) []string {
+	out := genC08Exhaustive(tier)
 	for i := 0; i < n; i++ {
 		if r.Intn(25) == 0 {
 			// compare/3 with an arbitrary first argument
